@@ -502,7 +502,10 @@ fn n_check(exp: NExp, ty: ValueType, mask: u64, r: &VRes) -> Option<String> {
 
 fn oracle_binary(op: &str, a: &Value, b: &Value, mask: u64, r: &VRes) -> Option<String> {
     let (exp, tainted) = n_binary(op, a, b, mask);
-    n_check(exp, a.value_type(), mask, r).map(|w| if tainted { format!("shift-count-unmasked {w}") } else { w })
+    // `tainted`: a generic count with bits above the address size (finding C07-1, fixed): judged like
+    // every other operand now
+    let _ = tainted;
+    n_check(exp, a.value_type(), mask, r)
 }
 
 fn oracle_unary(op: &str, a: &Value, mask: u64, r: &VRes) -> Option<String> {
@@ -867,7 +870,10 @@ fn oracle_eval(a: &EvalArgs, reply: &str) -> Option<String> {
     let n = naive_eval(a);
     let bits = 8 * a.encoding.address_size as u32;
     let m: u128 = if bits >= 128 { return None } else { 1u128 << bits };
-    let class = |w: &str| -> Option<String> { Some(if n.shift_taint { format!("naive-shift-count {w}") } else { w.to_string() }) };
+    // (`shift_taint` marked the runs affected by finding C07-1 while it was open; since the fix every
+    // mismatch is reported under its plain class)
+    let _ = n.shift_taint;
+    let class = |w: &str| -> Option<String> { Some(w.to_string()) };
     let Some(body) = reply.strip_prefix("ok ") else {
         // diverge / panic: only an expected plain result makes that wrong
         return match n.out {
